@@ -44,6 +44,8 @@ def als_completion(
     N = X.shape[1]
     if x0 is None:
         x0 = tn.rand(shape, ranks_tt=ranks_tt)
+    else:
+        x0 = x0.clone()  # The sweeps below work in place: leave the caller's initial solution alone
     # All tensor slices must contain at least one sample point
     for dim in range(N):
         if torch.unique(X[:, dim]).numel() != x0.shape[dim]:
